@@ -305,6 +305,9 @@ func cmdCheck(args []string) int {
 		for a := range g.assumptions {
 			assumptions[a] = true
 		}
+		for _, si := range g.staleInvs {
+			fmt.Printf("STALE-INVARIANT %s: %s\n", g.fname, si)
+		}
 		for _, a := range g.abstracted {
 			abstracted[g.fname+": "+a] = true
 		}
@@ -376,6 +379,27 @@ func cmdCheck(args []string) int {
 	seenNames := map[string]bool{}
 	moreViolations := 0
 	exit := 0
+	// retry timeouts of previously proved obligations once, all together, with a
+	// doubled limit (load on the machine must not raise an alarm)
+	{
+		var again []*Obligation
+		var idx []int
+		for i, r := range results {
+			ok := (r.V.Status == "unsat" && !r.O.WantSat) || (r.V.Status == "sat" && r.O.WantSat)
+			if !ok && (r.V.Status == "timeout" || r.V.Status == "unknown") && (baseline[baseName(r.O.Name)] || provedFuncs[r.O.Func]) {
+				again = append(again, r.O)
+				idx = append(idx, i)
+			}
+		}
+		if len(again) > 0 && len(again) <= 3 {
+			sv2 := NewSolver(filepath.Join(*verif, ".cache"), timeout*2, 16)
+			rr := runObligations(sv2, again)
+			sv2.Close()
+			for k, i := range idx {
+				results[i] = rr[k]
+			}
+		}
+	}
 	type failGroup struct {
 		base    string
 		members []Result
@@ -384,14 +408,6 @@ func cmdCheck(args []string) int {
 	var groupOrder []string
 	for _, r := range results {
 		ok := (r.V.Status == "unsat" && !r.O.WantSat) || (r.V.Status == "sat" && r.O.WantSat)
-		// retry a timeout once with a longer limit (load on the machine must not raise an alarm)
-		if !ok && (r.V.Status == "timeout" || r.V.Status == "unknown") && (baseline[baseName(r.O.Name)] || provedFuncs[r.O.Func]) {
-			sv2 := NewSolver(filepath.Join(*verif, ".cache"), timeout*3, 16)
-			rr := runObligations(sv2, []*Obligation{r.O})
-			sv2.Close()
-			r = rr[0]
-			ok = (r.V.Status == "unsat" && !r.O.WantSat) || (r.V.Status == "sat" && r.O.WantSat)
-		}
 		seenNames[baseName(r.O.Name)] = true
 		rep := oblReport{Name: r.O.Name, Kind: r.O.Kind, Status: r.V.Status, Solver: r.V.Solver, Seconds: r.V.Seconds, Cached: r.V.Cached, Pos: r.O.Pos, Desc: r.O.Desc}
 		reports = append(reports, rep)
